@@ -190,7 +190,7 @@ func c08Sum(c *vlib.Ctx) {
 
 type c08Built struct {
 	name     string
-	bytes    []byte           // from the network layer (or GRE/ICMPv4 carrier IPv4) on
+	bytes    []byte // from the network layer (or GRE/ICMPv4 carrier IPv4) on
 	first    gopacket.LayerType
 	ckOff    int    // offset of the 16-bit checksum field in bytes
 	covStart int    // covered range [covStart, len(bytes)) plus pseudo
